@@ -41,6 +41,13 @@ def build(cmd_name, race=False, timeout=900):
                      "replace github.com/tychoish/fun => %s\n" % os.path.abspath(alt))
         open(os.path.join(BIN, "alt%s.sum" % tag), "a").close()
         args += ["-modfile", modfile]
+    audit = bool(os.environ.get("VERIF_HARNESS_RACE")) and not race
+    if audit:
+        # development aid: build the harness itself with the race detector to find data races in HARNESS code
+        # (they can kill a replay process and look like a library crash); reports are collected by run()
+        out += "-audit"
+        args[6] = out
+        args.append("-race")
     if race:
         args.append("-race")
     args.append("./cmd/" + cmd_name)
@@ -51,11 +58,53 @@ def build(cmd_name, race=False, timeout=900):
     return out
 
 
+_SKIP = ("runtime.", "runtime/", "panic(", "sync.", "sync/", "internal/", "reflect.", "created by", "testing.")
+
+
+def crash_origin(stderr):
+    """Where did a dying harness process die?  Go prints the goroutine that panicked / hit the fatal error first
+    ("goroutine N [running]:"); its innermost frame outside the runtime tells whether the fault is in the library
+    under test ("library") or in the harness's own code ("harness", e.g. a data race on a harness map that the
+    runtime reports as 'concurrent map writes' from inside a callback the library invoked)."""
+    import re
+    m = re.search(r"^goroutine \d+ \[running[^\]]*\]:\n(.*?)(?:\n\n|\Z)", stderr, re.S | re.M)
+    if not m:
+        return "unknown"
+    for line in m.group(1).splitlines():
+        if not line or line.startswith("\t"):
+            continue
+        name = line.strip()
+        if name.startswith(_SKIP):
+            continue
+        if name.startswith("github.com/tychoish/fun"):
+            return "library"
+        if name.startswith(("main.", "verif/harness")):
+            return "harness"
+        return "unknown"
+    return "unknown"
+
+
+def _attribute(stderr):
+    """A crash that originates in harness code must never be blamed on the library: the checks look for
+    'panic:' / 'fatal error:' next to a library frame, so those markers are renamed for harness-origin crashes
+    (the check then reports infrastructure trouble, exit 2, with the text intact otherwise)."""
+    # only faults the Go runtime itself detected (fatal errors, 'panic: runtime error: ...'): a panic with a value
+    # of the harness's own may be a SCRIPTED panic of a callback that the library failed to recover - that one is
+    # the library's fault and must stay attributable to it
+    runtime_fault = "fatal error:" in stderr or "panic: runtime error" in stderr
+    if runtime_fault and crash_origin(stderr) == "harness":
+        return ("HARNESS-ORIGIN CRASH (not a verdict about the library)\n" +
+                stderr.replace("panic:", "harness-panic:").replace("fatal error:", "harness-fatal-error:"))
+    return stderr
+
+
 def run(binary, args, stdin_lines=None, timeout=600, env_extra=None):
     """Run a harness binary. stdin_lines: iterable of JSON-serialisable objects (ndjson).
     Returns (rc, list of decoded stdout JSON lines, stderr text)."""
     env = goenv()
     env.update(env_extra or {})
+    if os.environ.get("VERIF_HARNESS_RACE"):
+        env.setdefault("GORACE", "exitcode=0 halt_on_error=0")
     data = None
     if stdin_lines is not None:
         data = "".join(json.dumps(x, separators=(",", ":")) + "\n" for x in stdin_lines)
@@ -73,7 +122,10 @@ def run(binary, args, stdin_lines=None, timeout=600, env_extra=None):
             outs.append(json.loads(line))
         except Exception:
             pass
-    return p.returncode, outs, p.stderr
+    if os.environ.get("VERIF_HARNESS_RACE") and "WARNING: DATA RACE" in p.stderr:
+        with open(os.environ["VERIF_HARNESS_RACE"], "a") as fh:
+            fh.write("==== %s %s\n%s\n" % (binary, " ".join(args), p.stderr[:20000]))
+    return p.returncode, outs, _attribute(p.stderr)
 
 
 def run_sharded(binary, args, items, shards=8, timeout=600, env_extra=None):
